@@ -515,8 +515,12 @@ fn check_property(p: &Prop, tier: &str, runs_override: Option<u64>, only_scenari
         }
         classes.entry(format!("{}|{}", r.scenario, sig_of(&r.msg))).or_default().push(r.clone());
     }
+    // every listed open finding of this property is named on every run, hit or not
+    for k in known.iter().filter(|k| k.property == p.id && k.status == "open") {
+        known_hits.entry(k.what.clone()).or_default();
+    }
     for (what, n) in &known_hits {
-        println!("KNOWN-FINDING: property={} {} ({} runs)", p.id, what, n);
+        println!("KNOWN-FINDING: property={} {} ({} runs in this batch)", p.id, what, n);
     }
     let mut violations_out = Vec::new();
     std::fs::create_dir_all(format!("{}/replays", VERIF)).ok();
